@@ -45,10 +45,16 @@ FarCases ==
   {Mk(sh, <<sx, 0, k * 960 + r, 0, sx, ty>>, [pad |-> <<>>, align |-> <<>>], t) :
      sx \in {960, 1920}, k \in {30000, -30000}, r \in {0, 15, 30, 60, -60, 240}, ty \in {0, 960 * 20000 + 30}, sh \in {<<<<3, 4>>, <<4, 3>>>>},
      t \in {[ttol |-> <<1, 20>>, stol |-> <<1, 1000>>], [ttol |-> <<1, 100>>, stol |-> <<1, 1000>>], [ttol |-> <<1, 5>>, stol |-> <<1, 1000>>]}}
+\* a destination of 8 x 8 pixels, each 2^29 source pixels wide, whose first pixel has its centre inside a 100 x 100 source: the destination reaches
+\* 2^32 source pixels away (beyond the 32-bit range the boundary samples are cast to).  Only pixel (0, 0) is needed; TLC evaluates exactly that one.
+HugeCases ==
+  {Mk(<<<<100, 100>>, <<8, 8>>>>, <<sx * 536870912, 0, (100 - sx * 536870912) \div 2, 0, sy * 536870912, (100 - sy * 536870912) \div 2>>, o,
+      [ttol |-> <<1, 20>>, stol |-> <<1, 1000>>]) @@ [den |-> 1, huge |-> TRUE] :
+     sx \in {1, -1}, sy \in {1, -1}, o \in {[pad |-> <<>>, align |-> <<>>], [pad |-> <<2>>, align |-> <<>>], [pad |-> <<1>>, align |-> <<4>>], [pad |-> <<3>>, align |-> <<>>]}}
 AxisCases(s) == {[ns |-> ns, nd |-> nd, s |-> s, t |-> k * 960 + r] : ns \in 1..5, nd \in 1..5, k \in -8..13, r \in Res \cup {320, -320, 640}}
 VARIABLE c
 Init == c \in {[k |-> "st", v |-> s] : s \in Scales} \cup {[k |-> "near", v |-> s] : s \in NearScales} \cup {[k |-> "rot", v |-> 0], [k |-> "shear", v |-> 0], [k |-> "big", v |-> 0], [k |-> "far", v |-> 0]} \cup {[k |-> "axis", v |-> s] : s \in Scales}
-Next == "k" \in DOMAIN c /\ c' \in (IF c.k = "st" THEN STCases(c.v) ELSE IF c.k = "near" THEN NearCases(c.v) ELSE IF c.k = "shear" THEN ShearCases ELSE IF c.k = "big" THEN BigCases ELSE IF c.k = "far" THEN FarCases ELSE IF c.k = "axis" THEN AxisCases(c.v) ELSE RotCases) /\ Emit(c')
+Next == "k" \in DOMAIN c /\ c' \in (IF c.k = "st" THEN STCases(c.v) ELSE IF c.k = "near" THEN NearCases(c.v) ELSE IF c.k = "shear" THEN ShearCases ELSE IF c.k = "big" THEN BigCases \cup HugeCases ELSE IF c.k = "far" THEN FarCases ELSE IF c.k = "axis" THEN AxisCases(c.v) ELSE RotCases) /\ Emit(c')
 Spec == Init /\ [][Next]_c
 \* design level: the transcribed plan meets the contract
 ModelPlan(x) ==
